@@ -49,7 +49,7 @@ type Case struct {
 }
 
 const (
-	promptly = 3 * time.Second
+	promptly = 10 * time.Second // bounded waits for events that must happen: only a failing run ever waits this long (3 s was once exceeded by a whole-process stall at load 100)
 	markBit  = 0x40000000
 	panicBit = 0x20000000 // the handler of this message panics
 	waitBit  = 0x10000000 // the handler of this message waits for the first CloseNotify channel to be closed
